@@ -1042,6 +1042,10 @@ func values(b *base, p Pos, salt uint64) []Val {
 			for _, k := range []string{"zz-undefined-key", "es-facturae-doc-typo", "untdid-tax-categor"} {
 				out = append(out, Val{New: k, Val: "X1", Why: "random"})
 			}
+			// a published key refined with a +sub-key, carrying a value valid for the parent key
+			for _, k := range sample(d.ExtKeys, quickN(2), salt+7) {
+				out = append(out, Val{New: k + "+local", Val: extSample[k], Why: "refined"})
+			}
 			return out
 		}
 		if defs := d.Ext[cur]; len(defs) > 0 {
@@ -1050,6 +1054,8 @@ func values(b *base, p Pos, salt uint64) []Val {
 		add("defined", sample(d.ExtKeys, quickN(3), salt)...)
 		add("near-miss", nearMisses(cur, undefined, 2)...)
 		add("random", "zz-undefined-key", cur+"-x")
+		// a published key refined with +sub-keys is not itself a published key
+		add("refined", cur+"+local", cur+"+zz+9")
 		add("malformed", upper)
 	case kExtVal:
 		defs := d.Ext[r.Key]
